@@ -271,13 +271,45 @@ class Group:
         self.impl_emits = []  # every emit between header and footer
 
 
+def _specialisation(X, fn):
+    """{parameter name: normal form} for the parameters of the writer function `fn` that every call of it hands the same *computed*
+    piece of text (`write_soap_operation(.., &yaserde_ns_header)` with `let yaserde_ns_header = namespaces_header(&self.target_namespaces)`
+    made once in the caller): the piece is part of what `fn` writes, whoever put it together. A parameter that is handed a plain
+    value (a member, a loop element, another parameter) stays the parameter it is."""
+    sites = [ev for f_, evs in X.events.items() if f_ != fn for ev in evs if ev.kind == "call" and ev.callee == fn]
+    names = X.params.get(fn, [])
+    if not sites:
+        return {}
+    ce = _ce(X)
+
+    def computed(v):
+        if not isinstance(v, tuple):
+            return False
+        if v[0] in ("format", "joinmap", "list"):
+            return True
+        if v[0] == "call" and isinstance(v[1], str) and ce.summary(v[1]) is not None:
+            x = ce.expand(v)
+            return isinstance(x, tuple) and x[0] in ("format", "joinmap", "list")
+        return False
+    sub = {}
+    for i, n in enumerate(names):
+        if n is None or isinstance(n, tuple):
+            continue
+        vals = {ev.args[i] for ev in sites if i < len(ev.args)}
+        if len(vals) == 1:
+            v = next(iter(vals))
+            if computed(v):
+                sub[n] = v
+    return sub
+
+
 def struct_groups(X, fn):
     """Groups `pub struct N { members }` + `impl CheckRestrictions for N { checks }` in the inlined stream of fn."""
     groups = []
     cur = None
     state = "idle"
     pre = []
-    for ev in inline(X, fn, stop=()):
+    for ev in inline(X, fn, mapping=_specialisation(X, fn), stop=()):
         if ev.kind == "emit":
             sk = ev.skeleton()
             m = RE_STRUCT_OPEN.match(sk)
